@@ -113,7 +113,8 @@ type sim struct {
 	opsLeft       int
 	grown         int
 
-	lie *lie
+	lie  *lie
+	lie2 *lie // control field falsified together with lie (same response)
 
 	txLoc   map[string]loc // tx hash -> last (height, index) it was committed at
 	txOrder [][]byte       // distinct tx hashes in chain order
@@ -231,7 +232,7 @@ func (s *sim) drawBlock(r *simcore.RNG) (txs []string, round int, absent []int) 
 			}
 		}
 		for t := 0; t < nt; t++ {
-			switch r.Weighted([]int{50, 20, 12, 5, 5}) {
+			switch r.Weighted([]int{40, 18, 10, 22, 5}) {
 			case 0:
 				add(fmt.Sprintf("k%d-%d=v%d", h, t, r.Intn(1000)))
 			case 1:
@@ -243,7 +244,29 @@ func (s *sim) drawBlock(r *simcore.RNG) (txs []string, round int, absent []int) 
 			case 2:
 				add(fmt.Sprintf("fail%d-%d", h, t))
 			case 3:
-				add(fmt.Sprintf("sp/ %%c%d=v %d", h%3, r.Intn(1000)))
+				// keys over an alphabet with URL-special bytes; short, so that keys which are
+				// prefixes of one another and '+' / blank twins occur
+				const alpha = "ab+ %/?#&:1"
+				n := r.Range(1, 4)
+				k := make([]byte, n)
+				for j := range k {
+					k[j] = alpha[r.Intn(len(alpha))]
+				}
+				key := string(k)
+				if len(s.keysAll) > 0 && r.Bool(0.4) {
+					base := s.keysAll[r.Intn(len(s.keysAll))]
+					switch r.Intn(3) {
+					case 0:
+						key = base + key[:1] // extension of an existing key
+					case 1:
+						key = base[:1+r.Intn(len(base))] // prefix of an existing key
+					default:
+						if v := urlVariants(base); len(v) > 0 {
+							key = v[r.Intn(len(v))]
+						}
+					}
+				}
+				add(fmt.Sprintf("%s=v %d", key, r.Intn(1000)))
 			case 4:
 				add(fmt.Sprintf("once:%d-%d", h, t))
 			}
@@ -357,6 +380,56 @@ func (s *sim) otherKey(h int64, key string, i int) string {
 		c = sn.keys[(i+1)%len(sn.keys)]
 	}
 	return c
+}
+
+// urlVariants: keys that differ from key only where URL escaping is ambiguous.
+func urlVariants(key string) []string {
+	var out []string
+	for _, v := range []string{strings.ReplaceAll(key, "+", " "), strings.ReplaceAll(key, " ", "+"),
+		strings.ReplaceAll(key, "%20", " "), strings.ReplaceAll(key, " ", "%20"), strings.ReplaceAll(key, "%2F", "/"), strings.ReplaceAll(key, "/", "%2F")} {
+		if v != key {
+			out = append(out, v)
+		}
+	}
+	return out
+}
+
+// relatedKey picks an existing key of the state at height h that stands in the given
+// relation to key ("" when there is none).
+func (s *sim) relatedKey(h int64, key, rel string, i int) string {
+	sn := s.ms.snaps[h]
+	if sn == nil {
+		return ""
+	}
+	var c []string
+	for _, k := range sn.keys {
+		if k == key {
+			continue
+		}
+		switch rel {
+		case "prefix":
+			if strings.HasPrefix(key, k) {
+				c = append(c, k)
+			}
+		case "extension":
+			if strings.HasPrefix(k, key) {
+				c = append(c, k)
+			}
+		case "urlvariant":
+			for _, v := range urlVariants(key) {
+				if v == k {
+					c = append(c, k)
+					break
+				}
+			}
+		default:
+			c = append(c, k)
+		}
+	}
+	if len(c) == 0 {
+		return ""
+	}
+	return c[i%len(c)]
 }
 
 // ---------------------------------------------------------------- op generation
@@ -492,6 +565,15 @@ func (s *sim) Next(rng *simcore.RNG) simcore.Op {
 		case k < 18 && len(s.keysAll) > 0:
 			key = s.keysAll[rng.Intn(len(s.keysAll))]
 		}
+		if sn != nil && len(sn.keys) > 0 && rng.Bool(0.2) {
+			// a key related to an existing one (often non-existent itself): extension, url twin
+			base := sn.keys[rng.Intn(len(sn.keys))]
+			if v := urlVariants(base); len(v) > 0 && rng.Bool(0.5) {
+				key = v[rng.Intn(len(v))]
+			} else {
+				key = base + []string{"9", "0", "+", " ", "a"}[rng.Intn(5)]
+			}
+		}
 		op["key"] = simcore.HexStr([]byte(key))
 	case "blockchain":
 		op["min"], op["max"] = rng.Intn(int(H)+3), rng.Intn(int(H)+3)
@@ -508,6 +590,10 @@ func (s *sim) Next(rng *simcore.RNG) simcore.Op {
 		f := lieFields[lm]
 		op["lm"], op["lf"] = lm, f[rng.Intn(len(f))]
 		op["li"], op["lx"], op["lfix"] = rng.Intn(1<<16), rng.Range(1, 255), rng.Intn(3)
+		if f2 := lieFields2[lm]; len(f2) > 0 && rng.Bool(0.5) {
+			// a second, control field of the same response falsified together with the first
+			op["lf2"], op["lx2"] = f2[rng.Intn(len(f2))], rng.Range(1, 255)
+		}
 	}
 	return op
 }
@@ -640,11 +726,24 @@ func (s *sim) Apply(op simcore.Op) bool {
 				li.i = 0
 			}
 		}
-		s.lie = li
+		var li2 *lie
+		if lf2 := op.Str("lf2"); lf2 != "" && li != nil {
+			li2 = &lie{method: li.method, field: lf2, i: li.i, x: op.Int("lx2"), fix: li.fix}
+		}
+		s.lie, s.lie2 = li, li2
 		out := s.invoke(s.rpc, op)
 		e.Settle()
-		s.lie = nil
+		s.lie, s.lie2 = nil, nil
 		e.Count("op.call." + m)
+		if li2 != nil && li2.fired {
+			e.Count("fault.lie_pair." + li2.method + "." + li2.field)
+			if li.fired {
+				// the violation class is that of the primary lie; the control field is told along
+				li.desc += " TOGETHER WITH " + li2.desc
+			} else {
+				li = li2
+			}
+		}
 		s.judge(op, li, out)
 	default:
 		return false
